@@ -26,14 +26,18 @@ Section Strategies.
   Theorem l_warning : step_gff call SWarning force spec st f0 = Ok st_a.
   Proof. unfold step_gff. rewrite store_dup. reflexivity. Qed.
 
-  (* 'replace' keeps the last, at the first one's position; its old level-1 parent links are
-     dropped and the newcomer's Parent links are stored *)
+  (* 'replace' keeps the last, at the first one's position; its old level-1 parent links and the level-2 rows derived
+     from them are dropped and the newcomer's Parent links are stored *)
   Theorem l_replace : step_gff call SReplace force spec st f0 =
     Ok (mkSt (update_id id (fun _ => f) (s_rows st))
-             (add_rels (filter (fun x => negb (str_eqb (rel_child x) id && (rel_level x =? 1))) (s_rels st))
+             (add_rels (filter (fun x => negb (through_links id (s_rels st) x))
+                               (filter (fun x => negb (str_eqb (rel_child x) id && (rel_level x =? 1))) (s_rels st)))
                        (parent_links f0 id))
              (s_dups st) a).
-  Proof. unfold step_gff. rewrite store_dup. reflexivity. Qed.
+  Proof.
+    unfold step_gff. rewrite store_dup. unfold f, st_a.
+    cbn [do_merge is_replace andb s_rows s_rels s_dups s_auto r_id set_bin set_id]. rewrite Hdup. reflexivity.
+  Qed.
 
   Lemma update_const_find rows : has_id id rows = true -> find_id id (update_id id (fun _ => f) rows) = Some f.
   Proof.
